@@ -1,4 +1,4 @@
-import RtenVerif.Lemmas.ControlFlowSim3
+import RtenVerif.Lemmas.ControlFlowSim3b
 
 /-!
 # `runPlan = evalG`: one step, all steps, whole nested runs (C24.T1, fragment)
@@ -14,32 +14,159 @@ theorem flags_map_snd (F : V × Nat → Bool × V) (hF : ∀ p, (F p).2 = p.1) :
     simp only [List.zipIdx_cons, List.map_cons, hF]
     rw [flags_map_snd F hF l (k + 1)]
 
-/-- One step. `hS`: no operator runs in place (fragment restriction). -/
-theorem step_sim (S : Sem P V) (hS : ∀ k, S.inPlaceIdx k = []) (f : Nat) (rec : Runner P V)
+/-- `run_in_place` condition of `run_plan` for a primitive step. -/
+def inPlaceCond (S : Sem P V) (g : Graph P V) (st : St V) (k : P) (ins : List Nat) : Bool :=
+  !(candidates S k ins st.temp).isEmpty && (candidates S k ins st.temp).all (fun c =>
+    st.rc c.2 == 1 && ((look st.temp c.2).isSome || (g.caps.contains c.2 && canTake st.env c.2)))
+
+/-- The rest of a primitive step once the in-place inputs have been taken. -/
+def primFinish (S : Sem P V) (views : Env V) (k : P) (ins : List Nat) (out : Nat) (st1 : St V)
+    (taken : List (Nat × V)) : Except Err (St V) :=
+  match collect views st1 taken 0 ins with
+  | .error e => .error e
+  | .ok vs =>
+    match S.run k vs with
+    | none => .error .opError
+    | some v => .ok (decDeps { st1 with temp := (out, v) :: st1.temp } ins)
+
+theorem stepOp_prim_eq (S : Sem P V) (rec : Runner P V) (g : Graph P V) (views : Env V) (st : St V)
+    (k : P) (ins : List Nat) (out : Nat) :
+    stepOp S rec g views st (.prim k ins out) =
+      match (if inPlaceCond S g st k ins then takeAll g.caps st (candidates S k ins st.temp)
+             else .ok (st, [])) with
+      | .error e => .error e
+      | .ok (st1, taken) => primFinish S views k ins out st1 taken := rfl
+
+/-- One step. `hS`: every operator declares at most one in-place input (single-output operators
+of rten all do). -/
+theorem step_sim (S : Sem P V) (hS : ∀ k, (S.inPlaceIdx k).length ≤ 1) (f : Nat) (rec : Runner P V)
     (ev : Env V → Graph P V → List V → Except Err (List V)) (href : RefHyp f rec ev)
-    (g : Graph P V) (views : Env V) (E : List (Frame V)) (σp : Env V) (ctx : Ctx g views E σp)
+    (g : Graph P V) (views : Env V) (σp : Env V) (ctx : Ctx g views σp)
     (op : Op P V) (hop : op ∈ g.ops) (hwf : OpWf f g op) (rest : List (Op P V)) (st : St V)
-    (b : Env V) (inv : Inv g views E σp (op :: rest) st b) :
-    Rel (fun st' σ' => ∃ b', σ' = b' ++ σp ∧ Inv g views E σp rest st' b')
+    (b : Env V) (inv : Inv g views σp (op :: rest) st b) :
+    Rel (fun st' σ' => ∃ b', σ' = b' ++ σp ∧ Inv g views σp rest st' b')
       (stepOp S rec g views st op) (evalOp S false ev (b ++ σp) op) := by
   cases op with
   | prim k ins out =>
-    have hc : candidates S k ins st.temp = [] := by simp [candidates, hS k]
     have hl : lookups (opLookup views st) ins = lookups (look (b ++ σp)) ins :=
       lookups_congr _ _ ins (fun n hn => inv.agree n (needed_head g _ rest n (Or.inl hn)))
-    simp only [stepOp, evalOp, hc, List.isEmpty_nil, Bool.not_true, Bool.false_and,
-      Bool.false_eq_true, if_false, collect_nil_eq_lookups, hl]
-    cases hlk : lookups (look (b ++ σp)) ins with
-    | error e => simp [Rel]
-    | ok vs =>
-      cases hr : S.run k vs with
-      | none => simp [Rel, hr]
-      | some v =>
-        simp only [Rel, hr]
-        refine ⟨(out, v) :: b, rfl, ?_⟩
-        have := inv_finish g views E σp ctx (.prim k ins out) hop rest st st b [v] inv rfl rfl
-          (fun m => Or.inl rfl)
-        simpa [Op.outs, deps_prim] using this
+    have hfin : ∀ (st1 : St V) (taken : List (Nat × V)),
+        collect views st1 taken 0 ins = lookups (opLookup views st) ins →
+        (∀ m, getInput st1.env m = getInput st.env m ∨
+          (st.rc m = 1 ∧ m ∈ ins ∧ isValueNode g m = true ∧ (m ∈ g.defs ∨ m ∈ g.caps))) →
+        (∀ m, m ∈ g.allDefs → getInput st1.env m = none) → headOK st1.env → st1.rc = st.rc →
+        (∀ m, look st1.temp m = look st.temp m ∨ (look st1.temp m = none ∧ st.rc m = 1 ∧ m ∈ ins)) →
+        Rel (fun st' σ' => ∃ b', σ' = b' ++ σp ∧ Inv g views σp rest st' b')
+          (primFinish S views k ins out st1 taken) (evalOp S false ev (b ++ σp) (.prim k ins out)) := by
+      intro st1 taken hcol henv1 hsh1 hhd1 hrc heff
+      simp only [primFinish, evalOp, hcol, hl]
+      cases hlk : lookups (look (b ++ σp)) ins with
+      | error e => simp [Rel]
+      | ok vs =>
+        cases hr : S.run k vs with
+        | none => simp [Rel, hr]
+        | some v =>
+          simp only [Rel, hr]
+          refine ⟨(out, v) :: b, rfl, ?_⟩
+          have := inv_finish g views σp ctx (.prim k ins out) hop rest st st1 b [v] inv
+            (by simpa [deps_prim] using henv1) hsh1 hhd1 hrc (by simpa [deps_prim] using heff)
+          simpa [Op.outs, deps_prim] using this
+    have hnone : Rel (fun st' σ' => ∃ b', σ' = b' ++ σp ∧ Inv g views σp rest st' b')
+        (primFinish S views k ins out st []) (evalOp S false ev (b ++ σp) (.prim k ins out)) :=
+      hfin st [] (collect_nil_eq_lookups views st ins 0) (fun m => Or.inl rfl) inv.shadowE inv.headok
+        rfl (fun m => Or.inl rfl)
+    rw [stepOp_prim_eq]
+    by_cases hip : inPlaceCond S g st k ins = true
+    · rcases candidates_spec S k ins st.temp (hS k) with hc | ⟨pos, n, hc, hpos⟩
+      · simp [inPlaceCond, hc] at hip
+      · rw [if_pos hip, hc]
+        have hcond : st.rc n = 1 ∧ ((look st.temp n).isSome = true ∨
+            (g.caps.contains n = true ∧ canTake st.env n = true)) := by
+          simpa [inPlaceCond, hc] using hip
+        obtain ⟨hrc1, hav⟩ := hcond
+        have hnin : n ∈ ins := List.mem_of_getElem? hpos
+        have hposH : ∀ (hcount : ins.count n = 1) (i m : Nat), ins[i]? = some m →
+            (0 + i = pos ↔ m = n) := by
+          intro hcount i m hm
+          constructor
+          · intro hi
+            have hi' : i = pos := by omega
+            subst hi'
+            rw [hpos] at hm
+            exact (Option.some.inj hm).symm
+          · intro hmn
+            subst hmn
+            have := count_one_unique ins m i pos hcount hm hpos
+            omega
+        cases ht : look st.temp n with
+        | some v =>
+          have htv := takeValue_from_temp g.caps st n v hrc1 ht
+          simp only [takeAll, htv]
+          have hvn : look views n = none := by
+            cases hv : look views n with
+            | none => rfl
+            | some w =>
+              have := inv.disj n (by simp [hv])
+              rw [ht] at this; simp at this
+          have hval : opLookup views st n = some v := by simp [opLookup, hvn, ht]
+          have hcount : ins.count n = 1 := by
+            have := rc_one_no_remaining_use g (.prim k ins out) rest st inv.rc n
+              (isValueNode_of_valueDefs g n (inv.keys n (by simp [ht])))
+              (by rw [deps_prim]; exact hnin) hrc1
+            rw [deps_prim] at this; exact this.1
+          apply hfin
+          · exact collect_single views st _ pos n v hval
+              (fun m hm => by simp only [opLookup]; rw [look_erase_ne _ _ _ hm]) ins 0
+              (hposH hcount)
+          · exact fun m => Or.inl rfl
+          · exact inv.shadowE
+          · exact inv.headok
+          · rfl
+          · intro m
+            by_cases hm : m = n
+            · right; subst hm; exact ⟨look_erase_self _ _, hrc1, hnin⟩
+            · left; exact look_erase_ne _ _ _ hm
+        | none =>
+          have hg : g.caps.contains n = true ∧ canTake st.env n = true := by
+            rcases hav with h | h
+            · rw [ht] at h; simp at h
+            · exact h
+          obtain ⟨v, htk, hgi⟩ := takeInput_value st.env n inv.headok hg.2
+          have htv := takeValue_from_env g.caps st n hrc1 ht hg.1
+          simp only [takeAll, htv, htk]
+          have hnd : n ∉ g.defs := by
+            intro hd
+            have := caps_not_def g n hd
+            rw [hg.1] at this; simp at this
+          have hvn : look views n = none := by
+            cases hv : look views n with
+            | none => rfl
+            | some w =>
+              exfalso; apply hnd
+              have := ctx.vkeys n (by simp [hv])
+              simp only [Graph.defs, List.mem_append] at this ⊢
+              left; exact this
+          have hval : opLookup views st n = some v := by simp [opLookup, hvn, ht, hgi]
+          have hcap : n ∈ g.caps := by simpa using hg.1
+          have hisv : isValueNode g n = true := by simp [isValueNode, hcap]
+          have hcount : ins.count n = 1 := by
+            have := rc_one_no_remaining_use g (.prim k ins out) rest st inv.rc n hisv
+              (by rw [deps_prim]; exact hnin) hrc1
+            rw [deps_prim] at this; exact this.1
+          apply hfin
+          · exact collect_single views st _ pos n v hval
+              (fun m hm => by simp only [opLookup]; rw [getInput_takeInput_ne _ _ _ hm]) ins 0
+              (hposH hcount)
+          · intro m
+            by_cases hm : m = n
+            · right; subst hm; exact ⟨hrc1, hnin, hisv, Or.inr hcap⟩
+            · left; exact getInput_takeInput_ne _ _ _ hm
+          · exact fun m hm => getInput_takeInput_none _ _ _ (inv.shadowE m hm)
+          · exact headOK_takeInput _ _ inv.headok
+          · rfl
+          · exact fun m => Or.inl rfl
+    · rw [if_neg hip]
+      exact hnone
   | ifOp c t e outs =>
     obtain ⟨hnr, hwt, hwe, hdt, hde⟩ := hwf
     have hfacts := extract_facts g (.ifOp c t e outs) st hnr
@@ -48,10 +175,10 @@ theorem step_sim (S : Sem P V) (hS : ∀ k, S.inPlaceIdx k = []) (f : Nat) (rec 
       cases f with
       | zero => simp [wfG] at hw
       | succ f' => exact (wfG_succ f' sub hw).2.2.1
-    have hct := child_hyps g views E σp ctx _ hop rest st b inv hnr t
+    have hct := child_hyps g views σp ctx _ hop rest st b inv hnr t
       (fun n hn => by simp only [Op.capNames, List.mem_append]; left; exact hn)
       (fun n hn => by simp only [Op.allDefs, List.mem_append]; left; exact hn) hdt (hout t hwt)
-    have hce := child_hyps g views E σp ctx _ hop rest st b inv hnr e
+    have hce := child_hyps g views σp ctx _ hop rest st b inv hnr e
       (fun n hn => by simp only [Op.capNames, List.mem_append]; right; exact hn)
       (fun n hn => by simp only [Op.allDefs, List.mem_append]; right; exact hn) hde (hout e hwe)
     have hagc := inv.agree c (needed_head g _ rest c (Or.inl (by simp [Op.directInputs])))
@@ -76,10 +203,10 @@ theorem step_sim (S : Sem P V) (hS : ∀ k, S.inPlaceIdx k = []) (f : Nat) (rec 
                byVal := ex.2 } :: ex.1.env) = ev (b ++ σp) (if x ≠ 0 then t else e) [] := by
           by_cases hx : x ≠ 0
           · rw [if_pos hx]
-            have := href t [] _ (b ++ σp) hwt hct.1 hct.2
+            have := href t [] _ (b ++ σp) hwt hct.1 hct.2.1 hct.2.2
             simpa using this
           · rw [if_neg hx]
-            have := href e [] _ (b ++ σp) hwe hce.1 hce.2
+            have := href e [] _ (b ++ σp) hwe hce.1 hce.2.1 hce.2.2
             simpa using this
         rw [hrun]
         cases hr : ev (b ++ σp) (if x ≠ 0 then t else e) [] with
@@ -89,7 +216,9 @@ theorem step_sim (S : Sem P V) (hS : ∀ k, S.inPlaceIdx k = []) (f : Nat) (rec 
           · simp [Rel, bindOuts, hlen, hr]
           · simp only [bindOuts, hlen, if_false, Rel, hr]
             refine ⟨outs.zip r ++ b, by simp [List.append_assoc], ?_⟩
-            exact inv_finish g views E σp ctx (.ifOp c t e outs) hop rest st ex.1 b r inv henv hrc heff
+            exact inv_finish g views σp ctx (.ifOp c t e outs) hop rest st ex.1 b r inv
+              (fun m => Or.inl (by rw [henv])) (fun m hm => by rw [henv]; exact inv.shadowE m hm)
+              (by rw [henv]; exact inv.headok) hrc heff
   | loop trip cond car body outs =>
     obtain ⟨hnr, hwb, hdb⟩ := hwf
     have hfacts := extract_facts g (.loop trip cond car body outs) st hnr
@@ -97,7 +226,7 @@ theorem step_sim (S : Sem P V) (hS : ∀ k, S.inPlaceIdx k = []) (f : Nat) (rec 
       cases f with
       | zero => simp [wfG] at hwb
       | succ f' => exact (wfG_succ f' body hwb).2.2.1
-    have hcb := child_hyps g views E σp ctx _ hop rest st b inv hnr body
+    have hcb := child_hyps g views σp ctx _ hop rest st b inv hnr body
       (fun n hn => by simpa [Op.capNames] using hn) (fun n hn => by simpa [Op.allDefs] using hn)
       hdb hout
     have hag : ∀ n, n ∈ (Op.loop trip cond car body outs : Op P V).directInputs →
@@ -125,7 +254,7 @@ theorem step_sim (S : Sem P V) (hS : ∀ k, S.inPlaceIdx k = []) (f : Nat) (rec 
         (fun _ args => ev (b ++ σp) body args) := by
       funext i args
       have := href body ((args.zipIdx).map (fun (v, j) => (decide (j < 2) || decide (i ≠ 0), v)))
-        _ (b ++ σp) hwb hcb.1 hcb.2
+        _ (b ++ σp) hwb hcb.1 hcb.2.1 hcb.2.2
       rw [this, flags_map_snd _ (fun p => rfl) args 0]
     rw [htrip, hcnd, hcar, hrun]
     cases ht : optLookup (look (b ++ σp)) trip with
@@ -146,7 +275,8 @@ theorem step_sim (S : Sem P V) (hS : ∀ k, S.inPlaceIdx k = []) (f : Nat) (rec 
             · simp [Rel, bindOuts, hlen, hr]
             · simp only [bindOuts, hlen, if_false, Rel, hr]
               refine ⟨outs.zip r ++ b, by simp [List.append_assoc], ?_⟩
-              exact inv_finish g views E σp ctx (.loop trip cond car body outs) hop rest st ex.1 b r
-                inv henv hrc heff
+              exact inv_finish g views σp ctx (.loop trip cond car body outs) hop rest st ex.1 b r
+                inv (fun m => Or.inl (by rw [henv])) (fun m hm => by rw [henv]; exact inv.shadowE m hm)
+                (by rw [henv]; exact inv.headok) hrc heff
 
 end RtenVerif.ControlFlow
